@@ -193,6 +193,11 @@ type verifWaiter int
 
 func verifWaitStart(x *task) verifWaiter {
 	verifPerturb()
+	// between markDone and the end of wait a task is done but not yet known to be transitively done: make
+	// that window wider half of the time
+	if seed := verifC18Seed.Load(); seed != 0 && (seed+verifC18Ctr.Add(1)*0x9E3779B97F4A7C15)>>33&1 == 0 {
+		time.Sleep(150 * time.Microsecond)
+	}
 	if x == nil || !verifC18On.Load() {
 		return 0 // waiting on the nil task is not recorded
 	}
